@@ -242,3 +242,40 @@ PROPS["C10"] = dict(suites=[("arenaconc", {Q: 60, T: 2000})],
          "different / mixed work shapes; random work (2-4 threads x 1-3 announcements from a pool of 3 descriptions) under random, "
          "possibly truncated schedules; free-running stress with 2-16 threads; non-trivial = a schedule in which steps of different "
          "threads alternate; distinct by input text")
+
+MANIFEST_TEXT["C09"] = dict(
+    text="Theorems on the sequential arena: the object handed out has exactly the announced description and old objects keep theirs; "
+         "equal descriptions resolve to the identical object and only the first announcement allocates (at most one host registration), "
+         "different descriptions (equality = all eight attributes, C09_attributes) to distinct objects; after any sequence of "
+         "announcements the arena is exactly the distinct descriptions (memory bounded by distinct descriptions); the receiver "
+         "registers iff the description is new to the process; the arena stays duplicate-free over any history; persist_metadata "
+         "returns the announced data under every id (bookkeeping theorem). Tied to the real arena by descriptions differing in exactly "
+         "one attribute, repeated across receivers and restore cycles, with pointer identity, registrations, metadata content and the "
+         "interned-string / metadata counters (cfg hook) compared with the model.",
+    note=_RECV_NOTE + "leak_metadata / CallSiteData::from(&Metadata) attribute copying and the hash/bucket layout are abstracted in the sequential view (the bucket structure is modelled in C10).",
+    technique="Lean 4 proof (list lemmas on the interning arena) + differential correspondence (pointer identity, counters)")
+MANIFEST_TEXT["C10"] = dict(
+    text="Proof over an interleaving model (each read-locked scan and each write-locked re-scan+insert is one atomic step; any number of "
+         "threads, any work, any hash function incl. collisions, every schedule): the arena stays duplicate-free, every announcement "
+         "obtains an object with exactly its description (so equal => identical, different => distinct across threads), every object "
+         "allocated in the run is reported new by exactly one announcement, and a schedule giving every thread two steps per "
+         "announcement completes. Partial in the sense of DESIGN §4: the RwLock contract and the memory model are assumed. Tied to the "
+         "code by forcing every enumerated schedule on the real arena through cfg-guarded yield points and comparing objects/new-flags "
+         "with the model, plus free-running stress on up to 16 threads.",
+    note=_BASE_NOTE + "Assumed, not modelled: RwLock atomicity of critical sections, memory model, OS scheduling; string interning (same two-phase pattern, only entered under the metadata write lock) is not stepped separately.",
+    technique="Lean 4 proof (invariant over all interleavings of atomic steps) + forced-schedule correspondence + stress")
+
+_CAP_NOTE = (_BASE_NOTE + "Environment modelled, not verified: tracing-subscriber 0.3.19 Registry/Layered (parent resolution, reference "
+             "counting, per-thread span stack with duplicate marking, close cascade, extension slots), id-arena (ids = positions), the "
+             "front end at subscriber-call level. ")
+MANIFEST_TEXT["C17"] = dict(
+    text="Theorems: Storage.WF (parent index < child index, parent/children and span/event lists inverse, children and event lists "
+         "sorted, root lists = parentless items in order, follows-from targets valid) holds for the empty storage, is preserved by every "
+         "storage operation of the layer, hence for every storage of every program under any stack of capture layers "
+         "(C17_wf_reachable); on WF storages: roots characterised, ancestor chains are the parent chains (not cut by fuel), strictly "
+         "decreasing and end at a root; the iterator model of DescendantSpans::next yields exactly the pre-order traversal; descendants "
+         "= spans having the span among their ancestors, each once, parents before children; descendant events = events of descendants; "
+         "exact lengths / reversibility of the id-list iterators. Every law is also cross-checked on the real storage through the "
+         "public API by the harness, and the real dump is compared with the model's.",
+    note=_CAP_NOTE + "Cross-storage comparisons (ptr::eq on the storage) are checked by the harness only.",
+    technique="Lean 4 proof (invariant preservation; fuel-independence and traversal lemmas) + differential correspondence + law cross-checks on the real API")
